@@ -155,6 +155,8 @@ enum LT {
     Dict(DataType, Box<LT>),
     Ree(Box<LT>),
     Utf8View,
+    BinView,
+    Null,
     ListView(Box<LT>),
 }
 
@@ -177,13 +179,16 @@ fn lt_dt(t: &LT) -> DataType {
         LT::Dict(k, v) => DataType::Dictionary(Box::new(k.clone()), Box::new(lt_dt(v))),
         LT::Ree(v) => DataType::RunEndEncoded(Arc::new(Field::new("run_ends", DataType::Int32, false)), Arc::new(Field::new("values", lt_dt(v), true))),
         LT::Utf8View => DataType::Utf8View,
+        LT::BinView => DataType::BinaryView,
+        LT::Null => DataType::Null,
     }
 }
 
-const GRID: [&str; 30] = [  // see also BITS (nested bit-/byte-level leaves)
+const GRID: [&str; 36] = [  // see also BITS (nested bit-/byte-level leaves)
     "bool", "i8", "i16", "i32", "i64", "u8", "u32", "u64", "f32", "f64", "dec128", "utf8", "lutf8", "bin", "fsb3", "list", "fsl2",
     "struct", "dict8", "dict32", "ree", "utf8view", "listview", "liststr",
     "listsv", "structsv", "dictsv", "fslstr", "lbin", "reestr",
+    "date32", "ts_ms", "ts_ns", "time64us", "null", "binview",
 ];
 
 /// nested bit-/byte-level leaves: parents whose child range start and child `ArrayData::offset`
@@ -232,6 +237,12 @@ fn parse_lt(s: &str) -> LT {
         "dictsv" => LT::Dict(DataType::Int16, Box::new(LT::Utf8View)),
         "fslstr" => LT::Fsl(3, Box::new(LT::Utf8(false))),
         "lbin" => LT::Binary(true),
+        "date32" => LT::Prim(DataType::Date32),
+        "ts_ms" => LT::Prim(DataType::Timestamp(arrow_schema::TimeUnit::Millisecond, None)),
+        "ts_ns" => LT::Prim(DataType::Timestamp(arrow_schema::TimeUnit::Nanosecond, Some("+01:00".into()))),
+        "time64us" => LT::Prim(DataType::Time64(arrow_schema::TimeUnit::Microsecond)),
+        "null" => LT::Null,
+        "binview" => LT::BinView,
         "utf8view" => LT::Utf8View,
         "listview" => LT::ListView(Box::new(LT::Prim(DataType::Int32))),
         _ => panic!("unknown type {s}"),
@@ -240,7 +251,11 @@ fn parse_lt(s: &str) -> LT {
 
 // ------------------------------------------------------------------------- logical generator
 
-const WORDS: [&str; 10] = ["", "a", "ab", "abc", "\u{e9}t\u{e9}", "\u{20ac}", "a\u{1d11e}b", "zzzzzzzzzzzz", "a long string beyond twelve bytes", "another long string, sharing nothing"];
+const WORDS: [&str; 14] = [
+    "", "a", "ab", "abc", "\u{e9}t\u{e9}", "\u{20ac}", "a\u{1d11e}b", "zzzzzzzzzzzz", "a long string beyond twelve bytes", "another long string, sharing nothing",
+    // inline limit 12 / 13, and long values that share the 4-byte prefix and the length
+    "zzzzzzzzzzzzz", "zzzzzzzzzzzy", "a long string beyond twelve bytez", "a lonG string beyond twelve bytes",
+];
 const F64S: [u64; 8] = [0, 0x8000000000000000, 0x7ff8000000000000, 0x7ff8000000000001, 0xfff8000000000000, 0x3ff0000000000000, 0xbff0000000000000, 0x7ff0000000000000];
 const F32S: [u32; 8] = [0, 0x80000000, 0x7fc00000, 0x7fc00001, 0xffc00000, 0x3f800000, 0xbf800000, 0x7f800000];
 
@@ -250,6 +265,9 @@ thread_local! {
 }
 
 fn gen_val(rng: &mut Rng, t: &LT, nullable: bool) -> V {
+    if matches!(t, LT::Null) {
+        return V::N;
+    }
     if nullable && !NO_NULLS.with(|c| c.get()) && rng.chance(1, 4) {
         return V::N;
     }
@@ -275,6 +293,16 @@ fn gen_val(rng: &mut Rng, t: &LT, nullable: bool) -> V {
             }
         }
         LT::Utf8(_) | LT::Utf8View => V::X(rng.pick(&WORDS).as_bytes().to_vec()),
+        LT::Null => V::N,
+        LT::BinView => {
+            // lengths around the inline limit 12, long values sharing their 4-byte prefix
+            let n = *rng.pick(&[0usize, 1, 4, 11, 12, 13, 16, 20]);
+            let mut v: Vec<u8> = (0..n).map(|i| if i < 4 { 0x61 } else { *rng.pick(&[0u8, 0x61, 0xff]) }).collect();
+            if n > 0 && rng.chance(1, 4) {
+                v[0] = 0x62;
+            }
+            V::X(v)
+        }
         LT::Binary(_) => {
             let n = rng.usize(4);
             V::X((0..n).map(|_| *rng.pick(&[0u8, 1, 0x61, 0xff])).collect())
@@ -318,6 +346,9 @@ fn gen_col_inner(rng: &mut Rng, t: &LT, n: usize, none: bool) -> Vec<V> {
 
 /// a value of type `t` that can sit under a null slot / in an unused region
 fn garbage(rng: &mut Rng, t: &LT) -> V {
+    if matches!(t, LT::Null) {
+        return V::N;
+    }
     loop {
         let v = gen_val(rng, t, false);
         if v != V::N {
@@ -449,7 +480,7 @@ fn raw(rng: &mut Rng, t: &LT, col: &[V], k: &Knobs) -> ArrayData {
     let (slots, _real) = with_pad(rng, t, col, k);
     // a padded column whose padding contains nulls needs a bitmap
     let need_bitmap = col_has_null || slots.iter().any(|v| *v == V::N);
-    let nulls = validity(rng, &slots, need_bitmap, k, !matches!(t, LT::Ree(_)));
+    let nulls = validity(rng, &slots, need_bitmap, k, !matches!(t, LT::Ree(_) | LT::Null));
     let n = col.len();
     let kid_knobs = |rng: &mut Rng| Knobs {
         pad: k.kidpad.unwrap_or(if k.variant { rng.usize(4) } else { 0 }),
@@ -664,7 +695,8 @@ fn raw(rng: &mut Rng, t: &LT, col: &[V], k: &Knobs) -> ArrayData {
             kk.pad = 0;
             b = b.add_child_data(re).add_child_data(raw(rng, vt, &vals, &kk));
         }
-        LT::Utf8View => {
+        LT::Null => {}
+        LT::Utf8View | LT::BinView => {
             // data buffers: (variant) several buffers, values distributed at random, garbage between
             let nbuf = if k.variant { 1 + rng.usize(3) } else { 1 };
             let mut bufs: Vec<Vec<u8>> = vec![vec![]; nbuf];
@@ -672,8 +704,9 @@ fn raw(rng: &mut Rng, t: &LT, col: &[V], k: &Knobs) -> ArrayData {
             for v in &slots {
                 let s: Vec<u8> = match v {
                     V::X(x) => x.clone(),
-                    _ => if k.garbage { rng.pick(&WORDS).as_bytes().to_vec() } else { vec![] },
+                    _ => if ones() { vec![0xffu8; 13] } else if k.garbage { rng.pick(&WORDS).as_bytes().to_vec() } else { vec![] },
                 };
+                let s = if matches!(t, LT::Utf8View) && std::str::from_utf8(&s).is_err() { b"\xc3\xa9 not ascii, long".to_vec() } else { s };
                 if s.len() <= 12 {
                     let mut raw = [0u8; 16];
                     raw[..4].copy_from_slice(&(s.len() as u32).to_le_bytes());
@@ -761,6 +794,106 @@ fn std_build(t: &LT, col: &[V]) -> Option<ArrayRef> {
     })
 }
 
+/// builder history: per-value appends, then `append_array` of a slice of another realisation
+/// (offset, garbage under nulls), then per-value appends again
+fn builder_history(t: &LT, col: &[V], src: &ArrayRef) -> Option<ArrayRef> {
+    use arrow_array::builder::*;
+    let n = col.len();
+    let (a, b) = (n / 3, 2 * n / 3);
+    let mid = src.slice(a, b - a);
+    let bytes = |v: &V| if let V::X(x) = v { Some(x.clone()) } else { None };
+    macro_rules! prim {
+        ($ty:ty, $nat:ty) => {{
+            let mut bld = PrimitiveBuilder::<$ty>::new().with_data_type(lt_dt(t));
+            let val = |v: &V| bytes(v).map(|x| <$nat>::from_le_bytes(x[..].try_into().unwrap()));
+            for v in &col[..a] {
+                match val(v) {
+                    Some(x) => bld.append_value(x),
+                    None => bld.append_null(),
+                }
+            }
+            bld.append_array(mid.as_primitive::<$ty>());
+            let rest: Vec<Option<$nat>> = col[b..].iter().map(val).collect();
+            bld.extend_from_iter_option(rest);
+            Arc::new(bld.finish()) as ArrayRef
+        }};
+    }
+    macro_rules! bytesb {
+        ($b:expr, $down:expr, $str:expr) => {{
+            let mut bld = $b;
+            for v in col[..a].iter() {
+                match bytes(v) {
+                    Some(x) => bld.append_value($str(x)),
+                    None => bld.append_null(),
+                }
+            }
+            let _ = bld.append_array(&$down(&mid));
+            for v in col[b..].iter() {
+                match bytes(v) {
+                    Some(x) => bld.append_value($str(x)),
+                    None => bld.append_null(),
+                }
+            }
+            Arc::new(bld.finish()) as ArrayRef
+        }};
+    }
+    Some(match t {
+        LT::Bool => {
+            let mut bld = BooleanBuilder::new();
+            for v in &col[..a] {
+                match v {
+                    V::B(x) => bld.append_value(*x),
+                    _ => bld.append_null(),
+                }
+            }
+            bld.append_array(mid.as_boolean());
+            for v in &col[b..] {
+                match v {
+                    V::B(x) => bld.append_n(1, *x),
+                    _ => bld.append_nulls(1),
+                }
+            }
+            Arc::new(bld.finish())
+        }
+        LT::Prim(DataType::Int8) => prim!(Int8Type, i8),
+        LT::Prim(DataType::Int16) => prim!(Int16Type, i16),
+        LT::Prim(DataType::Int32) => prim!(Int32Type, i32),
+        LT::Prim(DataType::Int64) => prim!(Int64Type, i64),
+        LT::Prim(DataType::UInt8) => prim!(UInt8Type, u8),
+        LT::Prim(DataType::UInt32) => prim!(UInt32Type, u32),
+        LT::Prim(DataType::UInt64) => prim!(UInt64Type, u64),
+        LT::Prim(DataType::Float32) => prim!(Float32Type, f32),
+        LT::Prim(DataType::Float64) => prim!(Float64Type, f64),
+        LT::Prim(DataType::Decimal128(..)) => prim!(Decimal128Type, i128),
+        LT::Prim(DataType::Date32) => prim!(Date32Type, i32),
+        LT::Prim(DataType::Timestamp(arrow_schema::TimeUnit::Millisecond, _)) => prim!(TimestampMillisecondType, i64),
+        LT::Utf8(false) => bytesb!(GenericStringBuilder::<i32>::new(), |m: &ArrayRef| m.as_string::<i32>().clone(), |x: Vec<u8>| String::from_utf8(x).unwrap()),
+        LT::Utf8(true) => bytesb!(GenericStringBuilder::<i64>::new(), |m: &ArrayRef| m.as_string::<i64>().clone(), |x: Vec<u8>| String::from_utf8(x).unwrap()),
+        LT::Binary(false) => bytesb!(GenericBinaryBuilder::<i32>::new(), |m: &ArrayRef| m.as_binary::<i32>().clone(), |x: Vec<u8>| x),
+        LT::Binary(true) => bytesb!(GenericBinaryBuilder::<i64>::new(), |m: &ArrayRef| m.as_binary::<i64>().clone(), |x: Vec<u8>| x),
+        LT::Utf8View => bytesb!(StringViewBuilder::new(), |m: &ArrayRef| m.as_string_view().clone(), |x: Vec<u8>| String::from_utf8(x).unwrap()),
+        LT::BinView => bytesb!(BinaryViewBuilder::new(), |m: &ArrayRef| m.as_binary_view().clone(), |x: Vec<u8>| x),
+        LT::Fsb(w) => {
+            let mut bld = FixedSizeBinaryBuilder::new(*w as i32);
+            for v in &col[..a] {
+                match bytes(v) {
+                    Some(x) => bld.append_value(x).unwrap(),
+                    None => bld.append_null(),
+                }
+            }
+            bld.append_array(mid.as_fixed_size_binary()).unwrap();
+            for v in &col[b..] {
+                match bytes(v) {
+                    Some(x) => bld.append_value(x).unwrap(),
+                    None => bld.append_nulls(1),
+                }
+            }
+            Arc::new(bld.finish())
+        }
+        _ => return None,
+    })
+}
+
 struct Real {
     name: String,
     arr: ArrayRef,
@@ -839,6 +972,11 @@ fn realisations(rng: &mut Rng, t: &LT, col: &[V]) -> Vec<Real> {
     if let Some(a) = std_build(t, col) {
         out.push(Real { name: "builder".into(), data: a.to_data(), arr: a });
     }
+    // 6: builder history (append_value.., append_array of a slice of the offset/garbage realisation, append..)
+    let src = out[3].arr.clone();
+    if let Some(a) = builder_history(t, col, &src) {
+        out.push(Real { name: "history".into(), data: a.to_data(), arr: a });
+    }
     out
 }
 
@@ -868,7 +1006,9 @@ fn dump_ty(dt: &DataType) -> Option<String> {
             format!("d{}{}<{}>", k.primitive_width()?, if signed { 's' } else { 'u' }, dump_ty(v)?)
         }
         DataType::RunEndEncoded(r, v) => format!("r{}<{}>", r.data_type().primitive_width()?, dump_ty(v.data_type())?),
-        DataType::Utf8View | DataType::BinaryView | DataType::ListView(_) | DataType::LargeListView(_) | DataType::Map(..) | DataType::Union(..) => return None,
+        DataType::Utf8View => "v".into(),
+        DataType::BinaryView => "w".into(),
+        DataType::ListView(_) | DataType::LargeListView(_) | DataType::Map(..) | DataType::Union(..) => return None,
         d => format!("p{}", d.primitive_width()?),
     })
 }
@@ -955,6 +1095,8 @@ fn parse_dt(c: &mut Cur) -> DataType {
         b'y' => DataType::Binary,
         b'Y' => DataType::LargeBinary,
         b'x' => DataType::FixedSizeBinary(c.num() as i32),
+        b'v' => DataType::Utf8View,
+        b'w' => DataType::BinaryView,
         k @ (b'l' | b'L') => {
             let n = nbf(c);
             c.expect(b'<');
@@ -1097,6 +1239,8 @@ fn cast_targets(t: &LT) -> Vec<DataType> {
         LT::Prim(_) => vec![DataType::Int64, DataType::Int8, DataType::Float64, DataType::Utf8, DataType::UInt16],
         LT::Utf8(_) | LT::Utf8View => vec![DataType::LargeUtf8, DataType::Binary, DataType::Utf8View, DataType::Int32, DataType::Dictionary(Box::new(DataType::Int16), Box::new(DataType::Utf8))],
         LT::Binary(_) => vec![DataType::LargeBinary, DataType::BinaryView],
+        LT::BinView => vec![DataType::Binary, DataType::LargeBinary],
+        LT::Null => vec![DataType::Int32, DataType::Utf8],
         LT::Fsb(_) => vec![DataType::Binary],
         LT::List(i) | LT::ListView(i) => vec![DataType::LargeList(Arc::new(Field::new("item", lt_dt(i), true)))],
         LT::LargeList(i) => vec![DataType::List(Arc::new(Field::new("item", lt_dt(i), true)))],
@@ -1116,6 +1260,56 @@ fn rowwise(t: &LT) -> Vec<(String, Box<dyn Fn(&ArrayRef) -> Result<ArrayRef, Arr
         ks.push(("add_self".into(), Box::new(|a| arrow_arith::numeric::add(a, a))));
         ks.push(("add_wrapping_self".into(), Box::new(|a| arrow_arith::numeric::add_wrapping(a, a))));
         ks.push(("eq_self".into(), Box::new(|a| arrow_ord::cmp::eq(a, a).map(|x| Arc::new(x) as ArrayRef))));
+    }
+    // arity.rs: user closures must never see the payload under a null (`ones` puts MAX there)
+    macro_rules! arity {
+        ($ty:ty) => {{
+            ks.push(("arity_unary".into(), Box::new(|a| Ok(Arc::new(arrow_arith::arity::unary::<$ty, _, $ty>(a.as_primitive::<$ty>(), |x| x.wrapping_mul(3))) as ArrayRef))));
+            ks.push(("arity_try_unary".into(), Box::new(|a| {
+                arrow_arith::arity::try_unary::<$ty, _, $ty>(a.as_primitive::<$ty>(), |x| x.checked_add(1).ok_or_else(|| ArrowError::ComputeError("overflow".into()))).map(|x| Arc::new(x) as ArrayRef)
+            })));
+            ks.push(("bitwise_not".into(), Box::new(|a| arrow_arith::bitwise::bitwise_not(a.as_primitive::<$ty>()).map(|x| Arc::new(x) as ArrayRef))));
+            ks.push(("bitwise_shl1".into(), Box::new(|a| arrow_arith::bitwise::bitwise_shift_left_scalar(a.as_primitive::<$ty>(), 1).map(|x| Arc::new(x) as ArrayRef))));
+            ks.push(("bitwise_and5".into(), Box::new(|a| arrow_arith::bitwise::bitwise_and_scalar(a.as_primitive::<$ty>(), 5).map(|x| Arc::new(x) as ArrayRef))));
+            ks.push(("bitwise_xor_self".into(), Box::new(|a| arrow_arith::bitwise::bitwise_xor(a.as_primitive::<$ty>(), a.as_primitive::<$ty>()).map(|x| Arc::new(x) as ArrayRef))));
+        }};
+    }
+    match t {
+        LT::Prim(DataType::Int8) => arity!(Int8Type),
+        LT::Prim(DataType::Int16) => arity!(Int16Type),
+        LT::Prim(DataType::Int32) => arity!(Int32Type),
+        LT::Prim(DataType::Int64) => arity!(Int64Type),
+        LT::Prim(DataType::UInt8) => arity!(UInt8Type),
+        LT::Prim(DataType::UInt32) => arity!(UInt32Type),
+        LT::Prim(DataType::UInt64) => arity!(UInt64Type),
+        _ => {}
+    }
+    if matches!(t, LT::Prim(DataType::Date32 | DataType::Timestamp(..) | DataType::Time64(_))) {
+        use arrow_arith::temporal::{DatePart, date_part};
+        for (nm, part) in [("year", DatePart::Year), ("month", DatePart::Month), ("hour", DatePart::Hour), ("nanosecond", DatePart::Nanosecond), ("dow", DatePart::DayOfWeekSunday0)] {
+            ks.push((format!("date_part_{nm}"), Box::new(move |a| date_part(a.as_ref(), part))));
+        }
+    }
+    if matches!(t, LT::Utf8(_)) {
+        ks.push(("substring_by_char".into(), Box::new(|a| match a.data_type() {
+            DataType::Utf8 => arrow_string::substring::substring_by_char(a.as_string::<i32>(), 1, Some(2)).map(|x| Arc::new(x) as ArrayRef),
+            _ => arrow_string::substring::substring_by_char(a.as_string::<i64>(), 1, Some(2)).map(|x| Arc::new(x) as ArrayRef),
+        })));
+        ks.push(("regexp_is_match".into(), Box::new(|a| match a.data_type() {
+            DataType::Utf8 => arrow_string::regexp::regexp_is_match_scalar(a.as_string::<i32>(), "^a.*s$", None).map(|x| Arc::new(x) as ArrayRef),
+            _ => arrow_string::regexp::regexp_is_match_scalar(a.as_string::<i64>(), "^a.*s$", None).map(|x| Arc::new(x) as ArrayRef),
+        })));
+    }
+    if is_stringy(t) || matches!(t, LT::Binary(_) | LT::BinView) {
+        ks.push(("bit_length".into(), Box::new(|a| arrow_string::length::bit_length(a.as_ref()))));
+        ks.push(("concat_elements_self".into(), Box::new(|a| arrow_string::concat_elements::concat_elements_dyn(a.as_ref(), a.as_ref()))));
+    }
+    if is_stringy(t) || matches!(t, LT::Dict(..)) {
+        let pat = || Scalar::new(StringArray::from(vec!["%A%"]));
+        ks.push(("ilike".into(), Box::new(move |a| arrow_string::like::ilike(a, &pat()).map(|x| Arc::new(x) as ArrayRef))));
+        ks.push(("nlike".into(), Box::new(move |a| arrow_string::like::nlike(a, &pat()).map(|x| Arc::new(x) as ArrayRef))));
+        ks.push(("ends_with".into(), Box::new(|a| arrow_string::like::ends_with(a, &Scalar::new(StringArray::from(vec!["s"]))).map(|x| Arc::new(x) as ArrayRef))));
+        ks.push(("contains".into(), Box::new(|a| arrow_string::like::contains(a, &Scalar::new(StringArray::from(vec!["long"]))).map(|x| Arc::new(x) as ArrayRef))));
     }
     if matches!(t, LT::Prim(DataType::Decimal128(..))) {
         ks.push(("add_self".into(), Box::new(|a| arrow_arith::numeric::add(a, a))));
@@ -1165,12 +1359,89 @@ fn whole(t: &LT, rng_seed: u64, n: usize) -> Vec<(String, Box<dyn Fn(&ArrayRef) 
             }),
         ));
     }
+    ks.push(("concat_batches".into(), Box::new(|a| {
+        let rb = RecordBatch::try_from_iter([("c", a.clone())])?;
+        Ok(arrow_select::concat::concat_batches(&rb.schema(), &[rb.clone(), rb.slice(0, rb.num_rows() / 2)])?.column(0).clone())
+    })));
+    ks.push(("take_record_batch".into(), Box::new(|a| {
+        let rb = RecordBatch::try_from_iter([("c", a.clone())])?;
+        let i = UInt32Array::from((0..a.len() as u32).rev().collect::<Vec<_>>());
+        Ok(arrow_select::take::take_record_batch(&rb, &i)?.column(0).clone())
+    })));
+    ks.push(("interleave_record_batch".into(), Box::new(|a| {
+        let rb = RecordBatch::try_from_iter([("c", a.clone())])?;
+        let idx: Vec<(usize, usize)> = (0..a.len()).map(|i| (i % 2, a.len() - 1 - i)).collect();
+        Ok(arrow_select::interleave::interleave_record_batch(&[&rb, &rb], &idx)?.column(0).clone())
+    })));
+    ks.push(("cast_default".into(), Box::new(|a| arrow_cast::cast::cast(a.as_ref(), &DataType::Utf8))));
+    ks.push(("value_to_string".into(), Box::new(|a| {
+        let v: Result<Vec<String>, ArrowError> = (0..a.len()).map(|i| arrow_cast::display::array_value_to_string(a.as_ref(), i)).collect();
+        Ok(Arc::new(StringArray::from(v?)) as ArrayRef)
+    })));
+    ks.push(("shift1".into(), Box::new(|a| arrow_select::window::shift(a.as_ref(), 1))));
+    ks.push(("shift-2".into(), Box::new(|a| arrow_select::window::shift(a.as_ref(), -2))));
+    ks.push(("filter_optimized".into(), Box::new({
+        let m3 = mask.clone();
+        move |a| {
+            let mut fb = arrow_select::filter::FilterBuilder::new(&BooleanArray::from(m3.clone()));
+            fb = fb.optimize();
+            fb.build().filter(a.as_ref())
+        }
+    })));
+    ks.push(("take_arrays".into(), Box::new(|a| {
+        let i = UInt32Array::from((0..a.len() as u32).rev().collect::<Vec<_>>());
+        arrow_select::take::take_arrays(&[a.clone()], &i, None).map(|mut v| v.remove(0))
+    })));
+    if !matches!(t, LT::Struct(_) | LT::ListView(_)) {
+        ks.push(("sort_kernel".into(), Box::new(|a| arrow_ord::sort::sort(a.as_ref(), Some(arrow_schema::SortOptions { descending: true, nulls_first: false })))));
+        ks.push(("sort_limit3".into(), Box::new(|a| arrow_ord::sort::sort_limit(a.as_ref(), None, Some(3)))));
+        ks.push(("lexsort".into(), Box::new(|a| {
+            let cols = vec![
+                arrow_ord::sort::SortColumn { values: a.clone(), options: None },
+                arrow_ord::sort::SortColumn { values: a.clone(), options: Some(arrow_schema::SortOptions { descending: true, nulls_first: true }) },
+            ];
+            let i = arrow_ord::sort::lexsort_to_indices(&cols, None)?;
+            arrow_select::take::take(a.as_ref(), &i, None)
+        })));
+        ks.push(("rank".into(), Box::new(|a| Ok(Arc::new(UInt32Array::from(arrow_ord::rank::rank(a.as_ref(), None)?)) as ArrayRef))));
+        ks.push(("partition".into(), Box::new(|a| {
+            let p = arrow_ord::partition::partition(&[a.clone()])?;
+            Ok(Arc::new(UInt64Array::from(p.ranges().iter().flat_map(|r| [r.start as u64, r.end as u64]).collect::<Vec<_>>())) as ArrayRef)
+        })));
+    }
+    if matches!(t, LT::Dict(..)) {
+        ks.push(("gc_dictionary".into(), Box::new(|a| arrow_select::dictionary::garbage_collect_any_dictionary(a.as_any_dictionary()))));
+    }
+    match t {
+        LT::Utf8(false) => {
+            ks.push(("min_string".into(), Box::new(|a| Ok(Arc::new(StringArray::from(vec![arrow_arith::aggregate::min_string(a.as_string::<i32>()), arrow_arith::aggregate::max_string(a.as_string::<i32>())])) as ArrayRef))));
+        }
+        LT::Utf8(true) => {
+            ks.push(("min_string".into(), Box::new(|a| Ok(Arc::new(StringArray::from(vec![arrow_arith::aggregate::min_string(a.as_string::<i64>()), arrow_arith::aggregate::max_string(a.as_string::<i64>())])) as ArrayRef))));
+        }
+        LT::Utf8View => {
+            ks.push(("min_string_view".into(), Box::new(|a| Ok(Arc::new(StringArray::from(vec![arrow_arith::aggregate::min_string_view(a.as_string_view()), arrow_arith::aggregate::max_string_view(a.as_string_view())])) as ArrayRef))));
+        }
+        LT::Binary(false) => {
+            ks.push(("min_binary".into(), Box::new(|a| Ok(Arc::new(BinaryArray::from(vec![arrow_arith::aggregate::min_binary(a.as_binary::<i32>()), arrow_arith::aggregate::max_binary(a.as_binary::<i32>())])) as ArrayRef))));
+        }
+        LT::BinView => {
+            ks.push(("min_binary_view".into(), Box::new(|a| Ok(Arc::new(BinaryArray::from(vec![arrow_arith::aggregate::min_binary_view(a.as_binary_view()), arrow_arith::aggregate::max_binary_view(a.as_binary_view())])) as ArrayRef))));
+        }
+        LT::Fsb(_) => {
+            ks.push(("min_fsb".into(), Box::new(|a| Ok(Arc::new(BinaryArray::from(vec![arrow_arith::aggregate::min_fixed_size_binary(a.as_fixed_size_binary()), arrow_arith::aggregate::max_fixed_size_binary(a.as_fixed_size_binary())])) as ArrayRef))));
+        }
+        _ => {}
+    }
     macro_rules! agg {
         ($ty:ty, $arr:ty) => {{
             ks.push(("sum".into(), Box::new(|a| Ok(Arc::new(<$arr>::from(vec![arrow_arith::aggregate::sum(a.as_primitive::<$ty>())])) as ArrayRef))));
             ks.push(("min".into(), Box::new(|a| Ok(Arc::new(<$arr>::from(vec![arrow_arith::aggregate::min(a.as_primitive::<$ty>())])) as ArrayRef))));
             ks.push(("max".into(), Box::new(|a| Ok(Arc::new(<$arr>::from(vec![arrow_arith::aggregate::max(a.as_primitive::<$ty>())])) as ArrayRef))));
             ks.push(("sum_checked".into(), Box::new(|a| Ok(Arc::new(<$arr>::from(vec![arrow_arith::aggregate::sum_checked(a.as_primitive::<$ty>())?])) as ArrayRef))));
+            ks.push(("product".into(), Box::new(|a| Ok(Arc::new(<$arr>::from(vec![arrow_arith::aggregate::product(a.as_primitive::<$ty>())])) as ArrayRef))));
+            ks.push(("product_checked".into(), Box::new(|a| Ok(Arc::new(<$arr>::from(vec![arrow_arith::aggregate::product_checked(a.as_primitive::<$ty>())?])) as ArrayRef))));
+            ks.push(("min_array".into(), Box::new(|a| Ok(Arc::new(<$arr>::from(vec![arrow_arith::aggregate::min_array::<$ty, _>(a.as_primitive::<$ty>()), arrow_arith::aggregate::max_array::<$ty, _>(a.as_primitive::<$ty>()), arrow_arith::aggregate::sum_array::<$ty, _>(a.as_primitive::<$ty>())])) as ArrayRef))));
         }};
     }
     match t {
@@ -1237,6 +1508,24 @@ fn iter_readback(a: &dyn Array) -> Option<Vec<V>> {
     })
 }
 
+/// `iter().rev()` / `nth` read-back for a few types
+fn rev_readback(a: &dyn Array) -> Option<Vec<V>> {
+    Some(match a.data_type() {
+        DataType::Boolean => a.as_boolean().iter().rev().map(|x| x.map(V::B).unwrap_or(V::N)).collect(),
+        DataType::Int32 => a.as_primitive::<Int32Type>().iter().rev().map(|x| x.map(|v| V::X(v.to_le_bytes().to_vec())).unwrap_or(V::N)).collect(),
+        DataType::Float64 => a.as_primitive::<Float64Type>().iter().rev().map(|x| x.map(|v| V::X(v.to_le_bytes().to_vec())).unwrap_or(V::N)).collect(),
+        DataType::Utf8 => a.as_string::<i32>().iter().rev().map(|x| x.map(|v| V::X(v.as_bytes().to_vec())).unwrap_or(V::N)).collect(),
+        DataType::Utf8View => {
+            // nth from the front, one at a time
+            let arr = a.as_string_view();
+            (0..arr.len()).rev().map(|i| arr.iter().nth(i).unwrap().map(|v| V::X(v.as_bytes().to_vec())).unwrap_or(V::N)).collect()
+        }
+        DataType::FixedSizeBinary(_) => a.as_fixed_size_binary().iter().rev().map(|x| x.map(|v| V::X(v.to_vec())).unwrap_or(V::N)).collect(),
+        DataType::List(_) => a.as_list::<i32>().iter().rev().map(|x| x.map(|v| V::L(logical(v.as_ref()))).unwrap_or(V::N)).collect(),
+        _ => return None,
+    })
+}
+
 /// change one row (value or nullness) -> a different column of the same type and length
 fn perturb(rng: &mut Rng, t: &LT, col: &[V]) -> Option<Vec<V>> {
     if col.is_empty() {
@@ -1293,6 +1582,39 @@ fn run_col(ts: &str, n: usize, seed: u64) -> String {
         let wn = col.iter().filter(|v| **v == V::N).count();
         if ln != format!("{wn}") {
             fail(format!("logical_null_count[{}] got {} want {}", r.name, ln, wn));
+        }
+    }
+    // constructors of canonical arrays: new_null_array / new_empty_array (+ ArrayData::new_null / new_empty)
+    {
+        let dt = lt_dt(&t);
+        let nn = guarded(|| show_col(&logical(new_null_array(&dt, n).as_ref())));
+        let want_nulls = show_col(&vec![V::N; n]);
+        if nn != want_nulls && !matches!(t, LT::Ree(_) | LT::Dict(..)) {
+            fail(format!("new_null_array got {} want {}", nn, want_nulls));
+        }
+        let nd = guarded(|| show_col(&logical(make_array(ArrayData::new_null(&dt, n)).as_ref())));
+        if nd != nn {
+            fail(format!("ArrayData::new_null got {} but new_null_array {}", nd, nn));
+        }
+        let ne = guarded(|| format!("{}", new_empty_array(&dt).len() + make_array(ArrayData::new_empty(&dt)).len()));
+        if ne != "0" {
+            fail(format!("new_empty_array len {}", ne));
+        }
+        if col.iter().all(|v| *v == V::N) && !matches!(t, LT::Ree(_) | LT::Dict(..)) {
+            tag("all-null-column");
+            let e = guarded(|| format!("{}", new_null_array(&dt, n).as_ref() == reals[0].arr.as_ref()));
+            if e != "true" {
+                fail(format!("new_null_array == all-null column: {}", e));
+            }
+        }
+    }
+    // reverse / random-access iteration
+    for r in &reals {
+        if let Some(mut it) = guarded_opt(|| rev_readback(r.arr.as_ref())) {
+            it.reverse();
+            if show_col(&it) != want {
+                fail(format!("rev-iter-readback[{}] got {} want {}", r.name, show_col(&it), want));
+            }
         }
     }
     // (ii) == on all pairs; != against a different column
@@ -1357,6 +1679,9 @@ fn run_col(ts: &str, n: usize, seed: u64) -> String {
             bin.push(("eq", Box::new(move |x, y| b(cmp::eq(x, y)))));
             bin.push(("lt", Box::new(move |x, y| b(cmp::lt(x, y)))));
             bin.push(("gt_eq", Box::new(move |x, y| b(cmp::gt_eq(x, y)))));
+            bin.push(("neq", Box::new(move |x, y| b(cmp::neq(x, y)))));
+            bin.push(("lt_eq", Box::new(move |x, y| b(cmp::lt_eq(x, y)))));
+            bin.push(("gt", Box::new(move |x, y| b(cmp::gt(x, y)))));
             bin.push(("distinct", Box::new(move |x, y| b(cmp::distinct(x, y)))));
             bin.push(("not_distinct", Box::new(move |x, y| b(cmp::not_distinct(x, y)))));
             // comparison kernels feeding boolean kernels
@@ -1374,6 +1699,41 @@ fn run_col(ts: &str, n: usize, seed: u64) -> String {
             bin.push(("sub_wrapping", Box::new(|x, y| an::sub_wrapping(x, y))));
             bin.push(("mul_wrapping", Box::new(|x, y| an::mul_wrapping(x, y))));
         }
+        macro_rules! arity2 {
+            ($ty:ty) => {{
+                bin.push(("arity_binary", Box::new(|x, y| arrow_arith::arity::binary::<$ty, $ty, _, $ty>(x.as_primitive::<$ty>(), y.as_primitive::<$ty>(), |p, q| p.wrapping_add(q)).map(|r| Arc::new(r) as ArrayRef))));
+                bin.push(("arity_try_binary", Box::new(|x, y| {
+                    arrow_arith::arity::try_binary::<_, _, _, $ty>(x.as_primitive::<$ty>(), y.as_primitive::<$ty>(), |p, q| p.checked_div(q).ok_or_else(|| ArrowError::DivideByZero)).map(|r| Arc::new(r) as ArrayRef)
+                })));
+                bin.push(("bitwise_and", Box::new(|x, y| arrow_arith::bitwise::bitwise_and(x.as_primitive::<$ty>(), y.as_primitive::<$ty>()).map(|r| Arc::new(r) as ArrayRef))));
+                bin.push(("bitwise_or", Box::new(|x, y| arrow_arith::bitwise::bitwise_or(x.as_primitive::<$ty>(), y.as_primitive::<$ty>()).map(|r| Arc::new(r) as ArrayRef))));
+            }};
+        }
+        match &t {
+            LT::Prim(DataType::Int8) => arity2!(Int8Type),
+            LT::Prim(DataType::Int32) => arity2!(Int32Type),
+            LT::Prim(DataType::Int64) => arity2!(Int64Type),
+            LT::Prim(DataType::UInt8) => arity2!(UInt8Type),
+            LT::Prim(DataType::UInt64) => arity2!(UInt64Type),
+            _ => {}
+        }
+        if is_stringy(&t) || matches!(t, LT::Binary(_) | LT::BinView) {
+            bin.push(("concat_elements", Box::new(|x, y| arrow_string::concat_elements::concat_elements_dyn(x.as_ref(), y.as_ref()))));
+        }
+        if !matches!(t, LT::Struct(_) | LT::ListView(_)) {
+            bin.push(("lexsort2", Box::new(|x, y| {
+                let cols = vec![arrow_ord::sort::SortColumn { values: x.clone(), options: None }, arrow_ord::sort::SortColumn { values: y.clone(), options: None }];
+                let i = arrow_ord::sort::lexsort_to_indices(&cols, None)?;
+                // ties are broken by the second column: compare the pairs, not the indices
+                let a = arrow_select::take::take(x.as_ref(), &i, None)?;
+                let c = arrow_select::take::take(y.as_ref(), &i, None)?;
+                arrow_select::concat::concat(&[a.as_ref(), c.as_ref()])
+            })));
+            bin.push(("partition2", Box::new(|x, y| {
+                let p = arrow_ord::partition::partition(&[x.clone(), y.clone()])?;
+                Ok(Arc::new(UInt64Array::from(p.ranges().iter().flat_map(|r| [r.start as u64, r.end as u64]).collect::<Vec<_>>())) as ArrayRef)
+            })));
+        }
         if matches!(t, LT::Bool) {
             bin.push(("and", Box::new(move |x, y| b(ab::and(x.as_boolean(), y.as_boolean())))));
             bin.push(("or", Box::new(move |x, y| b(ab::or(x.as_boolean(), y.as_boolean())))));
@@ -1388,9 +1748,13 @@ fn run_col(ts: &str, n: usize, seed: u64) -> String {
         let preals = realisations(&mut rng, &LT::Bool, &pcol);
         bin.push(("filter_nullable_pred", Box::new(|x, p| arrow_select::filter::filter(x.as_ref(), p.as_boolean()))));
         bin.push(("nullif", Box::new(|x, p| arrow_select::nullif::nullif(x.as_ref(), p.as_boolean()))));
+        bin.push(("filter_record_batch", Box::new(|x, p| {
+            let rb = RecordBatch::try_from_iter([("c", x.clone())])?;
+            Ok(arrow_select::filter::filter_record_batch(&rb, p.as_boolean())?.column(0).clone())
+        })));
         let all_pairs = n <= 20;
         for (name, k) in &bin {
-            let pred = *name == "filter_nullable_pred" || *name == "nullif";
+            let pred = *name == "filter_nullable_pred" || *name == "nullif" || *name == "filter_record_batch";
             let rhs: &Vec<Real> = if pred { &preals } else { &reals2 };
             let o0 = guard_out(|| k(&reals[0].arr, &rhs[0].arr));
             tag(&format!("k2:{}:{}", name, if o0 == "ERR" { "err" } else if o0 == "PANIC" { "panic" } else { "ok" }));
@@ -1409,6 +1773,7 @@ fn run_col(ts: &str, n: usize, seed: u64) -> String {
                 }
             }
         }
+        // merge(mask, truthy, falsy) is NOT row-wise in its value operands (it consumes them in order): same realisation loop
         // zip(mask, truthy, falsy): three operands
         let o0 = guard_out(|| arrow_select::zip::zip(preals[0].arr.as_boolean(), &reals[0].arr, &reals2[0].arr));
         tag(&format!("k2:zip:{}", if o0 == "ERR" { "err" } else if o0 == "PANIC" { "panic" } else { "ok" }));
@@ -1542,8 +1907,85 @@ fn pick_n(rng: &mut Rng) -> usize {
 fn gen_column_cases(rng: &mut Rng, out: &mut Vec<(String, String)>) {
     // Boolean columns get extra weight (boolean kernels read value bits next to validity bits)
     let ts = if rng.chance(1, 10) { "bool" } else if rng.chance(1, 3) { *rng.pick(&BITS) } else { *rng.pick(&GRID) };
-    let t = parse_lt(ts);
     let n = if is_bits(ts) { *rng.pick(&[1usize, 2, 3, 4, 6, 9, 17]) } else { pick_n(rng) };
+    gen_column_cases_for(rng, ts, n, out)
+}
+
+/// the fixed block generated in every run, whatever the seed: every type of the grid at the sizes
+/// 0, 1, 8, 64, 65, 129 (one/two 64-bit words of validity, +-1), leaf types also at 1025
+fn boundary_block(out: &mut Vec<(String, String)>) {
+    let mut rng = Rng::new(0xC02_B10C);
+    for ts in GRID.iter().chain(BITS.iter()) {
+        let sizes: &[usize] = if is_bits(ts) { &[0, 1, 8, 13] } else if matches!(*ts, "bool" | "i32" | "u8" | "utf8" | "f64" | "utf8view" | "dict8") { &[0, 1, 8, 64, 65, 129, 1025] } else { &[0, 1, 8, 64, 65, 129] };
+        for &n in sizes {
+            let before = out.len();
+            gen_column_cases_for(&mut rng, ts, n, out);
+            for (_, t) in out[before..].iter_mut() {
+                t.push_str(&format!(" block:size n:{}", n));
+            }
+        }
+    }
+}
+
+/// directed `eq` lines around the null-density switch of primitive_equal / fixed_binary_equal
+/// (`null_count / len >= 0.4`): null counts floor(0.4 n) - 1, ceil(0.4 n), + 1, garbage under nulls,
+/// equal pairs and pairs differing in one valid byte, offsets 0 / 3 on either side
+fn threshold_block(out: &mut Vec<(String, String)>) {
+    let mut rng = Rng::new(0xC02_7423);
+    for &w in &[1usize, 4, 3] {
+        for &n in &[5usize, 10, 20, 64, 65, 100] {
+            let lo = (4 * n) / 10;
+            for k in [lo.saturating_sub(1), (4 * n + 9) / 10, (4 * n + 9) / 10 + 1] {
+                if k == 0 || k > n {
+                    continue;
+                }
+                // choose k null positions
+                let mut valid = vec![true; n];
+                let mut left = k;
+                while left > 0 {
+                    let i = rng.usize(n);
+                    if valid[i] {
+                        valid[i] = false;
+                        left -= 1;
+                    }
+                }
+                let vals: Vec<Vec<u8>> = (0..n).map(|_| rng.bytes(w)).collect();
+                let mk = |rng: &mut Rng, off: usize, vals: &Vec<Vec<u8>>| -> String {
+                    let mut bm = vec![0u8; (off + n + 7) / 8];
+                    let mut buf = rng.bytes(off * w);
+                    for i in 0..n {
+                        if valid[i] {
+                            set_bit(&mut bm, off + i);
+                            buf.extend_from_slice(&vals[i]);
+                        } else {
+                            buf.extend_from_slice(&rng.bytes(w));
+                        }
+                    }
+                    let ty = if w == 3 { "x3".to_string() } else { format!("p{}", w) };
+                    format!("A({};{};{};{};{};)", ty, n, off, hex(&bm), hex(&buf))
+                };
+                let a = mk(&mut rng, 0, &vals);
+                let b = mk(&mut rng, 3, &vals);
+                let mut other = vals.clone();
+                let j = (0..n).filter(|i| valid[*i]).nth(rng.usize(n - k)).unwrap_or(0);
+                other[j][0] ^= 1;
+                let co = if rng.bool() { 0 } else { 3 };
+                let c = mk(&mut rng, co, &other);
+                let side = if 10 * k >= 4 * n { "dense" } else { "sparse" };
+                let tags = format!("op:eq block:threshold w:{} n:{} density:{}/{} nulls:{} nt", w, n, k, n, side);
+                out.push((format!("C02 eq {} {}", a, b), format!("{} same", tags)));
+                out.push((format!("C02 eq {} {}", b, a), format!("{} same", tags)));
+                if n > k {
+                    out.push((format!("C02 eq {} {}", a, c), format!("{} different", tags)));
+                    out.push((format!("C02 eq {} {}", c, b), format!("{} different", tags)));
+                }
+            }
+        }
+    }
+}
+
+fn gen_column_cases_for(rng: &mut Rng, ts: &str, n: usize, out: &mut Vec<(String, String)>) {
+    let t = parse_lt(ts);
     let seed = rng.next_u64() >> 16;
     out.push((format!("C02 col {} {} {}", ts, n, seed), format!("op:col type:{} {}", ts, if n > 1 { "nt" } else { "" })));
     // correspondence lines: regenerate the same column and realisations
@@ -1635,12 +2077,8 @@ fn main() {
             let ty = line.split(' ').nth(2).unwrap_or("");
             let n0 = line.split(' ').nth(3) == Some("0");
             // known findings (see /verif/known_findings.txt): precise class + type + symptom
-            let kf = if ty == "listview" && (class == "eq" || class == "neq") {
-                " kf:listview-equal"
-            } else if class == "kernel" && kname.starts_with("substring") && (ty == "utf8" || ty == "lutf8") && f.contains("=ERR but [plain]=") && !f.contains("[plain]=ERR") {
+            let kf = if class == "kernel" && kname.starts_with("substring") && (ty == "utf8" || ty == "lutf8") && f.contains("=ERR but [plain]=") && !f.contains("[plain]=ERR") {
                 " kf:substring-null-payload"
-            } else if (ty == "listsv" || ty == "structsv" || ty == "dictsv") && (class == "eq" || class == "neq") {
-                " kf:byteview-equal-null-index"
             } else if class == "commute-concat" && (ty == "ree" || ty == "reestr") && n0 && f.contains("k(concat)=ERR") {
                 " kf:concat-empty-ree"
             } else {
@@ -1656,8 +2094,15 @@ fn main() {
             emit(&mut sink, line, "replay");
         }
     } else {
+        // fixed blocks first (independent of the seed)
+        let mut fixed = vec![];
+        boundary_block(&mut fixed);
+        threshold_block(&mut fixed);
+        for (l, t) in fixed {
+            emit(&mut sink, l, &t);
+        }
         let mut rng = Rng::new(args.seed ^ 0xC02);
-        let n = n_cases(&args, 2500, 60000);
+        let n = n_cases(&args, 2000, 60000);
         for _ in 0..n {
             let mut lines = vec![];
             gen_column_cases(&mut rng, &mut lines);
